@@ -845,6 +845,15 @@ class Engine:
         name = M.call_name(t)
         res = t.get("resolved_path") or ""
         nm = name
+        if re.search(r"<(usize|u8|u16|u32|u64|i32|i64|isize) as std::convert::From<bool>>::from$", nm) and len(args) == 1:
+            # `usize::from(flag)`: 0 or 1 — a branch on the flag
+            c_ = args[0]
+            d_ = self.decide(path, c_)
+            if c_ == ("bool", True) or d_ is True:
+                return [(("int", 1), None)]
+            if c_ == ("bool", False) or d_ is False:
+                return [(("int", 0), None)]
+            return [(("int", 0), [(c_, False)]), (("int", 1), [(c_, True)])]
         if IDENTITY_CALLS.search(nm) and args:
             a0 = args[0]
             if re.search(r"Option::<.*>::(as_ref|as_mut|copied|cloned)$", nm):
